@@ -728,8 +728,8 @@ func (fv *FV) mapFrameCheck(st *State, m Term, pos token.Pos) {
 }
 
 // guardCheck: guarded_by discipline is implemented in locks.go (no-op until configured).
-func (fv *FV) guardCheck(st *State, m ssa.Value, pos token.Pos) {
-	fv.guardCheckImpl(st, m, pos)
+func (fv *FV) guardCheck(st *State, m ssa.Value, pos token.Pos, write bool) {
+	fv.guardCheckImpl(st, m, pos, write)
 }
 
 func isMapRangeLoop(li *LoopInfo) bool {
